@@ -4,13 +4,14 @@ open TantivyModel.Grammar
 
 /-! ## step lemmas with a remainder: a plain word followed by the end or by a space -/
 
-/-- what may follow a word in a printed operand list: nothing, or a space after which the next
-    non-blank character is not a colon (a colon would make the word a field name) -/
+/-- what may follow a word in a printed operand list: nothing, a space after which the next
+    non-blank character is not a colon (a colon would make the word a field name), or the `)`
+    that closes the enclosing group -/
 def Rem (t : Str) : Prop :=
-  t = [] ∨ ∃ t', t = ' ' :: t' ∧ ∀ r', skip0 t' ≠ ':' :: r'
+  t = [] ∨ (∃ t', t = ' ' :: t' ∧ ∀ r', skip0 t' ≠ ':' :: r') ∨ (∃ t', t = ')' :: t')
 
 theorem wordRest_rem (t : Str) (ht : Rem t) : wordRest t = ([], t) := by
-  rcases ht with rfl | ⟨t', rfl, _⟩
+  rcases ht with rfl | ⟨t', rfl, _⟩ | ⟨t', rfl⟩
   · rfl
   · unfold wordRest
     split
@@ -21,6 +22,15 @@ theorem wordRest_rem (t : Str) (ht : Rem t) : wordRest t = ([], t) := by
     · rename_i heq
       obtain ⟨rfl, rfl⟩ := List.cons.inj heq
       simp [isUniSpace]
+  · unfold wordRest
+    split
+    · rename_i heq; cases heq
+    · rename_i heq
+      have := (List.cons.inj heq).1
+      exact absurd this (by decide)
+    · rename_i heq
+      obtain ⟨rfl, rfl⟩ := List.cons.inj heq
+      simp [escapeInWord]
 
 theorem wordRest_plain_rem (w t : Str) (hw : ∀ c ∈ w, plain c = true) (ht : Rem t) :
     wordRest (w ++ t) = (w, t) := by
@@ -43,8 +53,18 @@ theorem wordRest_plain_rem (w t : Str) (hw : ∀ c ∈ w, plain c = true) (ht : 
       simp [h1, h2', ih']
 
 theorem fieldRest_rem (t : Str) (ht : Rem t) : fieldRest t = ([], t) := by
-  rcases ht with rfl | ⟨t', rfl, _⟩
+  rcases ht with rfl | ⟨t', rfl, _⟩ | ⟨t', rfl⟩
   · rfl
+  · unfold fieldRest
+    split
+    · rename_i heq; cases heq
+    · rename_i heq
+      exact absurd (List.cons.inj heq).1 (by decide)
+    · rename_i heq
+      exact absurd (List.cons.inj heq).1 (by decide)
+    · rename_i heq
+      obtain ⟨rfl, rfl⟩ := List.cons.inj heq
+      simp [specialChars]
   · unfold fieldRest
     split
     · rename_i heq; cases heq
@@ -98,8 +118,12 @@ theorem prefix_plain_next (kw w t : Str) (hk : ∀ c ∈ kw, plain c = true) (hw
         intro h; subst h; exact hd rfl
       obtain ⟨k2, ks', rfl⟩ := List.exists_cons_of_ne_nil hks
       have hk2 := hk k2 (by simp)
-      rcases ht with rfl | ⟨t', rfl, _⟩
+      rcases ht with rfl | ⟨t', rfl, _⟩ | ⟨t', rfl⟩
       · simp [List.isPrefixOf] at hp'
+      · simp only [List.nil_append, List.isPrefixOf_cons_cons, Bool.and_eq_true, beq_iff_eq] at hp'
+        have := hp'.1
+        subst this
+        exact absurd hk2 (by decide)
       · simp only [List.nil_append, List.isPrefixOf_cons_cons, Bool.and_eq_true, beq_iff_eq] at hp'
         have := hp'.1
         subst this
@@ -134,8 +158,12 @@ theorem prefix_space_false (ks w t : Str) (hk : ∀ c ∈ ks, plain c = true) (h
   | cons k ks' ih =>
     cases w with
     | nil =>
-      rcases ht with rfl | ⟨t', rfl, _⟩
+      rcases ht with rfl | ⟨t', rfl, _⟩ | ⟨t', rfl⟩
       · simp [List.isPrefixOf] at hp
+      · simp only [List.nil_append, List.cons_append, List.isPrefixOf_cons_cons, Bool.and_eq_true, beq_iff_eq] at hp
+        have := hk k (by simp)
+        rw [hp.1] at this
+        exact absurd this (by decide)
       · simp only [List.nil_append, List.cons_append, List.isPrefixOf_cons_cons, Bool.and_eq_true, beq_iff_eq] at hp
         have := hk k (by simp)
         rw [hp.1] at this
@@ -198,7 +226,9 @@ theorem fieldName_rem : fieldName (c :: (r ++ t)) = none := by
   have hm : c ≠ '-' := plain_ne c '-' hc (by decide)
   have hfr := fieldRest_plain_rem r t (pw_tail c r h) ht
   simp [fieldName, hs, hm, hfr]
-  rcases ht with rfl | ⟨t', rfl, hcol⟩
+  rcases ht with rfl | ⟨t', rfl, hcol⟩ | ⟨t', rfl⟩
+  rotate_left 2
+  · simp [skip0, List.dropWhile, isNomSpace]
   · simp [skip0]
   · have e : skip0 (' ' :: t') = skip0 t' := by simp [skip0, List.dropWhile, isNomSpace]
     rw [e]
@@ -256,8 +286,13 @@ theorem simpleTerm_rem : simpleTerm (c :: (r ++ t)) = some ((.none, c :: r), t) 
   · simp [word_rem c r t h ht]
 
 theorem slopOrPrefix_rem : slopOrPrefix t = ((0, false), t) := by
-  rcases ht with rfl | ⟨t', rfl, _⟩
+  rcases ht with rfl | ⟨t', rfl, _⟩ | ⟨t', rfl⟩
   · rfl
+  · unfold slopOrPrefix
+    split
+    · rename_i heq; exact absurd (List.cons.inj heq).1 (by decide)
+    · rename_i heq; exact absurd (List.cons.inj heq).1 (by decide)
+    · rfl
   · unfold slopOrPrefix
     split
     · rename_i heq; exact absurd (List.cons.inj heq).1 (by decide)
@@ -287,8 +322,12 @@ theorem pLeaf_rem (g : Bool) (f : Nat) :
     simp [h1, h2, R.orElse, this, plainLiteral_rem c r t h ht g]
 
 theorem boost_rem : boost t = (none, t) := by
-  rcases ht with rfl | ⟨t', rfl, _⟩
+  rcases ht with rfl | ⟨t', rfl, _⟩ | ⟨t', rfl⟩
   · rfl
+  · unfold boost
+    split
+    · rename_i heq; exact absurd (List.cons.inj heq).1 (by decide)
+    · rfl
   · unfold boost
     split
     · rename_i heq; exact absurd (List.cons.inj heq).1 (by decide)
